@@ -527,7 +527,8 @@ def chk_obj(ctx, case):
     determined = e0["eq"] is not None and e0["ineq"] is not None
     lab = "%s:eq=%s,ineq=%s" % (case["cls"], {True: "T", False: "F", None: "band"}[e0["eq"]], {True: "T", False: "F", None: "band"}[e0["ineq"]])
     ctx.count(sub, key=key, nontrivial=determined, label=lab)
-    ctx.count(sub + "-basis", key=key, nontrivial=False, label="%s/%s" % (case["shape"], case["basis"]))
+    bk = "%s-basis:%s/%s" % (sub, case["shape"], case["basis"])      # basis histogram for the evidence (not a second evaluation)
+    ctx.dist[bk] = ctx.dist.get(bk, 0) + 1
 
 
 # ----------------------------------------------------------------------------------------------- case streams
